@@ -351,3 +351,28 @@ PROPS["C08"] = dict(
     assumptions=TRUST_BASE,
     stages=dict(quick=[native("dbg")], thorough=[native("dbg"), native("rel")]),
 )
+
+PROPS["C09"] = dict(
+    level="exploration",
+    technique="outcome monitor (catch_unwind, process-level isolation per execution with rlimits), H1 unsafe-precondition traps, H3 statement/loop fuel; ill-typed program generators; Miri on a sample",
+    level_text=("Every parser-accepted program from four workloads (programs the property names and their neighbours; ~70 "
+                "statement templates x all 44 universe values x 15 extreme numbers; the syntax-directed generator over a tiny "
+                "pool of names used as variables AND functions; statement-level mutants of the valid programs of C03-C07) is "
+                "executed in a forked child under an address-space and CPU limit, in the debug and the release profile. A panic "
+                "(incl. debug assertions and overflow checks), a trapped unsafe precondition, a signal or an abort is a "
+                "violation; an Ok or a rendered runtime error is the only acceptable end. The reference model is used solely to "
+                "tell programs that provably terminate within the budget (fuel exhaustion = violation) from programs it cannot "
+                "follow (fuel / allocation failure / CPU limit = inconclusive, counted)."),
+    level_note="Bounds: <= 5000 model steps, call depth <= 64; child limits 1 GiB heap and 10 s CPU. Resource-class endings are never verdicts.",
+    rule=("cases = (program, stdin) executions; distinct_nontrivial = distinct program texts that parsed and whose execution returned Ok or a runtime error."),
+    require=["programs.named", "programs.template", "programs.ill_typed", "programs.mutated_valid", "returned_ok",
+             "returned_runtime_error", "programs_beyond_the_model", "programs_model_follows_to_the_end",
+             "set:runtime_error_variants:20", "set:templates_used:60"],
+    assumptions=TRUST_BASE,
+    stages=dict(
+        quick=[native("dbg"), native("rel"), custom("miri_stage", release=True, shards=16, scale=1, name="miri:release")],
+        thorough=[native("dbg"), native("rel"),
+                  custom("miri_stage", release=True, shards=16, scale=1, name="miri:release"),
+                  custom("miri_stage", release=False, shards=16, scale=1, name="miri:dev")],
+    ),
+)
